@@ -391,6 +391,10 @@ type c07Outcome struct {
 	Browser   string
 	AdminReq  bool // after the handshake, send an admin API request through the tunnel
 	Prior     bool `json:",omitempty"` // the user's session with this id already exists when the probe arrives
+	// HoldMs: the peer connects and only that much later (below the server's 15 s first-packet deadline) sends its
+	// first packet, stamped with its clock at that moment: the window is about the server clock when the packet is
+	// judged, not when the connection was accepted
+	HoldMs int `json:",omitempty"`
 }
 
 var c07AdminUID = []byte("c07-admin-user!!")
@@ -540,6 +544,11 @@ func c07Inner(c c07Outcome) (vk.Result, error) {
 	tr := remote.Transport.CreateTransport()
 	conn, _ := dialer.Dial("tcp", "x")
 	ch := make(chan hs, 1)
+	if c.HoldMs > 0 {
+		synctest.Wait()
+		time.Sleep(time.Duration(c.HoldMs) * time.Millisecond)
+		res.Labels = append(res.Labels, "first-packet-sent-late")
+	}
 	go func() {
 		k, err := tr.Handshake(conn, auth)
 		ch <- hs{k, err}
@@ -562,7 +571,7 @@ func c07Inner(c c07Outcome) (vk.Result, error) {
 	mu.Unlock()
 	label := fmt.Sprintf("user=%s", c.User)
 	res.Labels = append(res.Labels, label, "transport="+strings.ToLower(c.Transport))
-	res.Key = fmt.Sprintf("%s/%v/%s/%v/%s/%v/%v/%v", c.User, c.Sid == 0, c.Method, c.WrongKey, strings.ToLower(c.Transport), tsOK, c.AdminReq, c.Prior)
+	res.Key = fmt.Sprintf("%s/%v/%s/%v/%s/%v/%v/%v/%v", c.User, c.Sid == 0, c.Method, c.WrongKey, strings.ToLower(c.Transport), c.OffsetMs, c.AdminReq, c.Prior, c.HoldMs)
 	if c.Prior {
 		res.Labels = append(res.Labels, "session-already-exists")
 	}
@@ -689,7 +698,8 @@ func TestVerif_C07_Outcome(t *testing.T) {
 			Method:    rapid.SampledFrom([]string{"served", "served", "served", "unknown"}).Draw(rt, "method"),
 			WrongKey:  rapid.IntRange(0, 5).Draw(rt, "wrongkey") == 0,
 			Transport: rapid.SampledFrom([]string{"direct", "direct", "cdn"}).Draw(rt, "transport"),
-			OffsetMs:  rapid.SampledFrom([]int64{0, 0, 0, 170000, -170000, 200000, -200000, 86400000}).Draw(rt, "offset"),
+			OffsetMs:  rapid.SampledFrom([]int64{0, 0, 0, 170000, -170000, 176000, -176000, 185000, -185000, 200000, -200000, 86400000}).Draw(rt, "offset"),
+			HoldMs:    rapid.SampledFrom([]int{0, 0, 2500, 9000, 14000}).Draw(rt, "hold"),
 			Browser:   rapid.SampledFrom([]string{"chrome", "firefox", "safari"}).Draw(rt, "browser"),
 		}
 		c.Prior = rapid.IntRange(0, 2).Draw(rt, "prior") == 0
